@@ -13,6 +13,7 @@ from spacepackets.cfdp.exceptions import InvalidCrc, TlvTypeMissmatch
 from spacepackets.cfdp.conf import PduConfig
 from spacepackets.cfdp.tlv.tlv import EntityIdTlv
 from spacepackets.cfdp.pdu.file_directive import FileDirectivePduBase, DirectiveType
+from spacepackets.cfdp.pdu.header import PduHeader
 from spacepackets.cfdp.pdu.eof import EofPdu
 from spacepackets.cfdp.pdu.ack import AckPdu, TransactionStatus
 from spacepackets.cfdp.pdu.prompt import PromptPdu, ResponseRequired
@@ -29,6 +30,78 @@ def header_view_ok(g, direction, mode, crc, large, segctrl, we, ws, src, seq, ds
                 g.source_entity_id.value == src, g.source_entity_id.byte_len == we,
                 g.transaction_seq_num.value == seq, g.transaction_seq_num.byte_len == ws,
                 g.dest_entity_id.value == dst, g.dest_entity_id.byte_len == we)
+
+
+# ------------------------------------------------------------------------------------------------------------------
+# Directive base
+# ------------------------------------------------------------------------------------------------------------------
+FD = P + "file_directive:"
+
+
+@obligation(["C06", "C09"], "FileDirectivePduBase/pack-roundtrip",
+            verifies=[FD + "FileDirectivePduBase.__init__", FD + "FileDirectivePduBase.pack", FD + "FileDirectivePduBase.unpack",
+                      FD + "FileDirectivePduBase.directive_param_field_len", FD + "AbstractFileDirectiveBase.header_len",
+                      FD + "AbstractFileDirectiveBase.packet_len", FD + "AbstractFileDirectiveBase.__eq__", FD + "FileDirectivePduBase.__eq__"])
+def base_roundtrip(direction: EnumOf(Direction), mode: EnumOf(TransmissionMode), crc: EnumOf(CrcFlag), large: EnumOf(LargeFileFlag),
+                   segctrl: EnumOf(SegmentationControl), we: W, ws: W, src: Int, seq: Int, dst: Int,
+                   code: EnumOf(DirectiveType), plen: IntRange(0, 65534), plen2: IntRange(0, 65534), suffix: Bytes):
+    requires(ids_in_range(we, ws, src, seq, dst))
+    conf = mk_conf(we, ws, src, seq, dst, mode, crc, large, direction, segctrl)
+    b = FileDirectivePduBase(conf, code, plen)
+    raw = b.pack()
+    ensures("layout", raw == directive_base_octets(direction, mode, crc, large, segctrl, we, ws, src, seq, dst, code, plen))
+    ensures("lengths", both(b.header_len == 4 + 2 * we + ws + 1, len(raw) == b.header_len, b.pdu_data_field_len == plen + 1,
+                            b.directive_param_field_len == plen, b.packet_len == 4 + 2 * we + ws + 1 + plen))
+    ensures("accessors", both(b.directive_type == code, header_view_ok(b, direction, mode, crc, large, segctrl, we, ws, src, seq, dst)))
+    ensures("pack-twice", b.pack() == raw)
+    g = FileDirectivePduBase.unpack(raw + suffix)
+    ensures("rt-accessors", both(g.directive_type == code, g.directive_param_field_len == plen, g.packet_len == b.packet_len,
+                                 g.header_len == b.header_len,
+                                 header_view_ok(g, direction, mode, crc, large, segctrl, we, ws, src, seq, dst)))
+    ensures("rt-equal", both(g == b, b == g))
+    ensures("rt-repack", g.pack() == raw)
+    b.directive_param_field_len = plen2
+    ensures("param-len-setter", both(b.directive_param_field_len == plen2, b.pdu_data_field_len == plen2 + 1,
+                                     b.packet_len == 4 + 2 * we + ws + 1 + plen2,
+                                     b.pack() == directive_base_octets(direction, mode, crc, large, segctrl, we, ws, src, seq, dst, code, plen2)))
+
+
+@obligation(["C06", "C09", "C10"], "FileDirectivePduBase.unpack/any", verifies=[FD + "FileDirectivePduBase.unpack"])
+def base_unpack_any(data: Bytes):
+    o = outcome(FileDirectivePduBase.unpack, data)
+    h = outcome(PduHeader.unpack, data)
+    ensures("raises-only", o.ok or o.raised(ValueError, UnsupportedCfdpVersion))
+    if not h.ok:
+        ensures("header-refusal-propagates", not o.ok)
+    else:
+        hl = raw_header_len(data)
+        ensures("too-short-iff", iff(o.ok, len(data) >= hl + 1))
+        ensures("too-short-error", o.ok or o.raised(BytesTooShortError))
+        if o.ok:
+            g = o.value
+            ensures("fields", both(g.directive_type == data[hl], g.header_len == hl + 1, g.packet_len == raw_packet_len(data),
+                                   g.directive_param_field_len == data[1] * 256 + data[2] - 1))
+            ensures("header", same_state(g.pdu_header, h.value))
+            ensures("prefix-only", same_state(g, FileDirectivePduBase.unpack(data[0:hl + 1])))
+
+
+@obligation(["C06", "C09", "C10"], "FileDirectivePduBase.parse_fss_field", verifies=[FD + "FileDirectivePduBase.parse_fss_field",
+                                                                                       FD + "FileDirectivePduBase._verify_file_len"])
+def base_fss_helpers(large: EnumOf(LargeFileFlag), raw: Bytes, idx: IntRange(0, None), size: Int):
+    conf = mk_conf(1, 1, 0, 0, 0, TransmissionMode.ACKNOWLEDGED, CrcFlag.NO_CRC, large, Direction.TOWARDS_RECEIVER,
+                   SegmentationControl.NO_RECORD_BOUNDARIES_PRESERVATION)
+    b = FileDirectivePduBase(conf, DirectiveType.EOF_PDU, 0)
+    fl = fss_len(large)
+    o = outcome(b.parse_fss_field, raw, idx)
+    ensures("raises-only", o.ok or o.raised(ValueError))
+    ensures("too-short-iff", iff(o.raised(BytesTooShortError), idx + fl > len(raw)))
+    ensures("accepted-iff", iff(o.ok, idx + fl <= len(raw)))
+    if o.ok:
+        ensures("value", both(o.value[0] == idx + fl, o.value[1] == from_be(raw[idx:idx + fl])))
+    v = outcome(b._verify_file_len, size)
+    ensures("verify-raises-only", v.ok or v.raised(ValueError))
+    ensures("verify-accepts-fitting", implies(both(0 <= size, size < fss_max(large)), v.ok))
+    ensures("verify-refuses-above-field-range", implies(size > fss_max(large), v.raised(ValueError)))
 
 
 # ------------------------------------------------------------------------------------------------------------------
@@ -70,6 +143,18 @@ def prompt_roundtrip(direction: EnumOf(Direction), mode: EnumOf(TransmissionMode
         ensures("rt-pack-keeps-equality", g == pdu)
 
 
+def any_common(data, o, fixed_params):
+    """clauses every decoder of a file-directive PDU owes for an arbitrary octet string it accepts: the buffer holds the declared
+    PDU, the CRC (if flagged) is right, the fixed parameters lie inside the declared PDU before the CRC trailer"""
+    hl = raw_header_len(data)
+    n = raw_packet_len(data)
+    c = raw_crc_flag(data)
+    ensures("buffer-holds-packet", len(data) >= n)
+    if c == 1:
+        ensures("crc-gate", crc16(data[0:n]) == 0)
+    ensures("declared-length-covers-fields", n - 2 * c >= hl + 1 + fixed_params)
+
+
 @obligation(["C06", "C04", "C09", "C10"], "PromptPdu.unpack/any", lia_branch=True,
             verifies=[P + "prompt:PromptPdu.unpack", P + "file_directive:FileDirectivePduBase.unpack",
                       P + "file_directive:FileDirectivePduBase.verify_length_and_checksum"])
@@ -78,12 +163,9 @@ def prompt_unpack_any(data: Bytes):
     ensures("raises-only", o.ok or o.raised(ValueError, InvalidCrc, UnsupportedCfdpVersion))
     if o.ok:
         g = o.value
+        any_common(data, o, 1)
         hl = raw_header_len(data)
         n = raw_packet_len(data)
-        c = raw_crc_flag(data)
-        ensures("buffer-holds-packet", len(data) >= n)
-        ensures("crc-gate", implies(c == 1, crc16(data[0:n]) == 0))
-        ensures("declared-length-covers-fields", n - 2 * c >= hl + 2)
         ensures("fields", both(g.directive_type == data[hl], g.response_required == bits(data[hl + 1], 7, 7), g.packet_len == n))
         o2 = outcome(PromptPdu.unpack, data[0:n])
         ensures("prefix-only", o2.ok)
@@ -235,6 +317,34 @@ def eof_setter_body(mode, crc, large, we, ws, src, seq, dst, cc, checksum, size,
     ensures("caller-config-untouched", same_state(conf, snap))
 
 
+@obligation(["C06", "C04", "C09", "C10"], "EofPdu.unpack/any", lia_branch=True, verifies=[P + "eof:EofPdu.unpack"])
+def eof_unpack_any(data: Bytes):
+    o = outcome(EofPdu.unpack, data)
+    ensures("raises-only", o.ok or o.raised(ValueError, InvalidCrc, UnsupportedCfdpVersion, TlvTypeMissmatch))
+    if o.ok:
+        g = o.value
+        hl = raw_header_len(data)
+        n = raw_packet_len(data)
+        fl = fss_len(raw_large_flag(data))
+        any_common(data, o, 5 + fl)
+        k = hl + 6 + fl                         # first octet after the fixed parameters
+        end = n - 2 * raw_crc_flag(data)        # end of the parameters: the declared PDU end, before the CRC trailer
+        ensures("fields", both(g.directive_type == data[hl], g.condition_code == bits(data[hl + 1], 7, 4),
+                               g.file_checksum == data[hl + 2:hl + 6], g.file_size == from_be(data[hl + 6:hl + 6 + fl])))
+        if end <= k:
+            ensures("no-fault-location", both(g.fault_location is None, g.packet_len == n))
+        else:
+            ensures("fault-location-present", g.fault_location is not None)
+            t = outcome(EntityIdTlv.unpack, data[k:end])
+            ensures("fault-location-from-declared-region-only", t.ok)
+            if t.ok:
+                ensures("fault-location-value", same_state(g.fault_location, t.value))
+        o2 = outcome(EofPdu.unpack, data[0:n])
+        ensures("prefix-only", o2.ok)
+        if o2.ok:
+            ensures("prefix-only-same", same_state(g, o2.value))
+
+
 # ------------------------------------------------------------------------------------------------------------------
 # ACK
 # ------------------------------------------------------------------------------------------------------------------
@@ -279,6 +389,24 @@ def ack_roundtrip(direction: EnumOf(Direction), mode: EnumOf(TransmissionMode), 
                                          header_view_ok(g, ack_direction(acked), mode, crc, large, segctrl, we, ws, src, seq, dst)))
             ensures("rt-equal", both(g == pdu, pdu == g))
             ensures("rt-repack", g.pack() == raw)
+
+
+@obligation(["C06", "C04", "C09", "C10"], "AckPdu.unpack/any", lia_branch=True, verifies=[P + "ack:AckPdu.unpack"])
+def ack_unpack_any(data: Bytes):
+    o = outcome(AckPdu.unpack, data)
+    ensures("raises-only", o.ok or o.raised(ValueError, InvalidCrc, UnsupportedCfdpVersion))
+    if o.ok:
+        g = o.value
+        any_common(data, o, 2)
+        hl = raw_header_len(data)
+        n = raw_packet_len(data)
+        ensures("fields", both(g.directive_type == DirectiveType.ACK_PDU, g.directive_code_of_acked_pdu == bits(data[hl + 1], 7, 4),
+                               g.directive_subtype_code == bits(data[hl + 1], 3, 0), g.condition_code_of_acked_pdu == bits(data[hl + 2], 7, 4),
+                               g.transaction_status == bits(data[hl + 2], 1, 0), g.packet_len == n))
+        o2 = outcome(AckPdu.unpack, data[0:n])
+        ensures("prefix-only", o2.ok)
+        if o2.ok:
+            ensures("prefix-only-same", same_state(g, o2.value))
 
 
 # ------------------------------------------------------------------------------------------------------------------
@@ -343,3 +471,20 @@ def keep_alive_set_file_flag(mode: EnumOf(TransmissionMode), crc: EnumOf(CrcFlag
     ensures("equal-to-fresh", pdu == fresh)
     ensures("pack-twice", pdu.pack() == raw)
     ensures("caller-config-untouched", same_state(conf0, snap))
+
+
+@obligation(["C06", "C04", "C09", "C10"], "KeepAlivePdu.unpack/any", lia_branch=True, verifies=[P + "keep_alive:KeepAlivePdu.unpack"])
+def keep_alive_unpack_any(data: Bytes):
+    o = outcome(KeepAlivePdu.unpack, data)
+    ensures("raises-only", o.ok or o.raised(ValueError, InvalidCrc, UnsupportedCfdpVersion))
+    if o.ok:
+        g = o.value
+        hl = raw_header_len(data)
+        n = raw_packet_len(data)
+        fl = fss_len(raw_large_flag(data))
+        any_common(data, o, fl)
+        ensures("fields", both(g.directive_type == DirectiveType.KEEP_ALIVE_PDU, g.progress == from_be(data[hl + 1:hl + 1 + fl]), g.packet_len == n))
+        o2 = outcome(KeepAlivePdu.unpack, data[0:n])
+        ensures("prefix-only", o2.ok)
+        if o2.ok:
+            ensures("prefix-only-same", same_state(g, o2.value))
